@@ -37,7 +37,7 @@ def compare(ctx, rep, group, results, N):
 def run(ctx):
     import EoN
     # --- SIR hierarchy with rho on arbitrary degree distributions
-    for k in range(ctx.scale(6, 60)):
+    for k in range(ctx.scale(12, 80)):
         seed = ctx.rng.randrange(10 ** 6)
         kind = ctx.rng.choice(["gnp", "ba", "regular", "star+cycle"])
         n = ctx.rng.randint(20, 60)
@@ -87,7 +87,7 @@ def run(ctx):
         except Exception as e:
             ctx.violation("pref-mix comparison raised %s" % type(e).__name__, dict(rep, error=type(e).__name__))
     # --- regular graph reductions
-    for k in range(ctx.scale(4, 40)):
+    for k in range(ctx.scale(8, 60)):
         d = ctx.rng.choice([2, 3, 4])
         n = ctx.rng.choice([6, 8, 10])
         if n <= d:
